@@ -241,6 +241,12 @@ class _Gen:
         d = {"description": self.S.s(), "start": self.clock.start(), "end": None, "logs": []}
         d["logs"] = [self.log() for _ in range(self.count(self.cfg["logs"]))]
         d["end"] = self.end()
+        if d["end"] is not None and d["start"] is not None and self.rng.random() < 0.1:
+            # a step that began and ended within the same millisecond (times are rounded to the millisecond in saved reports):
+            # finished, with a zero duration
+            d["end"] = d["start"]
+            for l in d["logs"]:
+                l["time"] = d["start"]
         return d
 
     def result(self):
